@@ -131,8 +131,11 @@ def main(run):
         "coap_gnutls.c; tied by the extracted acceptor on every observed session trace",
     ]
     run.assumptions = [
-        "TLS over TCP is not exercised by the tie (see level_note); the datagram gate is",
-        "PSK only (no certificates); GnuTLS " + "3.x as installed",
+        "GnuTLS's contract: gnutls_handshake returns success only if both ends presented the same key "
+        "(hypothesis of the credential theorems; monitored on the credential matrix on every run)",
+        "TLS over TCP is not modelled: it is checked by an implementation-only oracle on real loopback sockets",
+        "PSK only (no certificates); the GnuTLS version installed in the image",
+        "application callbacks are table look-ups (identity -> key, hint -> identity/key, SNI -> hint/key)",
     ]
     run.prove()
     model = vlib.build_model()
